@@ -15,9 +15,19 @@ import numpy as np
 from gen import sources
 
 
-def _ids(r):
+GIVEN_UIDS = []      # identifiers created by the generator (i.e. supplied by the caller) since the last reset
+
+
+def new_uid():
+    """an identifier the *caller* supplies; remembered so that a check can tell it from one the library generated"""
     import highdicom as hd
-    return dict(series_instance_uid=hd.UID(), series_number=r.randint(1, 99), sop_instance_uid=hd.UID(),
+    u = hd.UID()
+    GIVEN_UIDS.append(str(u))
+    return u
+
+
+def _ids(r):
+    return dict(series_instance_uid=new_uid(), series_number=r.randint(1, 99), sop_instance_uid=new_uid(),
                 instance_number=r.randint(1, 99))
 
 
@@ -187,9 +197,8 @@ def subject_pm(r, nr):
         else:
             maps.append(hd.pm.RealWorldValueMapping(lut_label=f'm{k}', lut_explanation='feature', unit=codes.UCUM.NoUnits,
                                                     value_range=(0, 255), lut_data=[float(v) * 0.5 for v in range(256)]))
-    rwvm = [maps] if r.random() < 0.2 and len(maps) > 0 else maps
-    if rwvm is not maps:
-        rwvm = [[m] for m in maps]
+    # 2-D / 3-D arrays take a flat list (all mappings apply to the one channel), 4-D arrays one list per channel
+    rwvm = [[m] for m in maps] if arr.ndim == 4 else maps
     kw = dict(_ids(r), **_equip())
 
     def call(source_images, pixel_array, real_world_value_mappings):
@@ -223,9 +232,316 @@ def subject_sc(r, nr):
         return {'name': 'sc.SCImage.from_ref_dataset', 'variant': (color, bits, how), 'call': call,
                 'inputs': {'pixel_array': arr, 'ref_dataset': ref}}
 
+    spacing = (0.5, 0.5) if r.random() < 0.5 else None
+
     def call(pixel_array):
         return hd.sc.SCImage(pixel_array=pixel_array, photometric_interpretation='RGB' if color else 'MONOCHROME2',
-                             bits_allocated=bits, coordinate_system='PATIENT', study_instance_uid=hd.UID(),
+                             bits_allocated=bits, coordinate_system='PATIENT', study_instance_uid=new_uid(),
                              manufacturer='verif', patient_id='p', patient_name='Doe^J', patient_orientation=['L', 'P'],
-                             pixel_spacing=(0.5, 0.5) if r.random() < 0.5 else None, **ids)
+                             pixel_spacing=spacing, **ids)
     return {'name': 'sc.SCImage', 'variant': (color, bits, how), 'call': call, 'inputs': {'pixel_array': arr}}
+
+
+# ------------------------------------------------------------------------------------------ structured reports
+def _measurement_report(r, nr, src, use_3d):
+    """A TID 1500 measurement report touching many content-item classes."""
+    import highdicom as hd
+    from highdicom import sr
+    from pydicom.sr.codedict import codes
+    observer_person = sr.ObserverContext(
+        observer_type=codes.DCM.Person,
+        observer_identifying_attributes=sr.PersonObserverIdentifyingAttributes(name='Bar^Foo'))
+    observer_device = sr.ObserverContext(
+        observer_type=codes.DCM.Device,
+        observer_identifying_attributes=sr.DeviceObserverIdentifyingAttributes(uid=new_uid()))
+    ctx = sr.ObservationContext(observer_person_context=observer_person, observer_device_context=observer_device)
+    img = src[0]
+    groups = []
+    for g in range(r.randint(1, 3)):
+        pts = nr.integers(1, 4, size=(4, 3 if use_3d else 2)).astype(np.float64)
+        if use_3d:
+            pts[:, 2] = pts[0, 2]            # a 3-D polygon must be planar
+        pts = np.vstack([pts, pts[:1]])
+        if use_3d:
+            region = sr.ImageRegion3D(graphic_type=sr.GraphicTypeValues3D.POLYGON, graphic_data=pts,
+                                      frame_of_reference_uid=img.FrameOfReferenceUID)
+        else:
+            region = sr.ImageRegion(graphic_type=sr.GraphicTypeValues.POLYLINE, graphic_data=pts,
+                                    source_image=sr.SourceImageForRegion.from_source_image(img))
+        meas = [sr.Measurement(name=codes.SCT.AreaOfDefinedRegion, value=float(r.randint(1, 99)) / 4,
+                               unit=codes.UCUM.SquareMillimeter,
+                               tracking_identifier=sr.TrackingIdentifier(uid=new_uid()),
+                               properties=sr.MeasurementProperties(
+                                   normality=sr.CodedConcept(value='17621005', meaning='Normal', scheme_designator='SCT'),
+                                   level_of_significance=codes.SCT.NotSignificant))]
+        evals = [sr.QualitativeEvaluation(name=codes.DCM.LevelOfSignificance, value=codes.SCT.NotSignificant)]
+        kind = r.choice(['planar', 'planar', 'volumetric', 'group'])
+        if kind == 'planar':
+            groups.append(sr.PlanarROIMeasurementsAndQualitativeEvaluations(
+                tracking_identifier=sr.TrackingIdentifier(uid=new_uid(), identifier=f'roi {g}'),
+                referenced_region=region, finding_type=codes.SCT.SpinalCord, measurements=meas,
+                qualitative_evaluations=evals,
+                finding_sites=[sr.FindingSite(anatomic_location=codes.SCT.CervicoThoracicSpine,
+                                              topographical_modifier=codes.SCT.VertebralForamen)]))
+        elif kind == 'volumetric' and not use_3d:
+            groups.append(sr.VolumetricROIMeasurementsAndQualitativeEvaluations(
+                tracking_identifier=sr.TrackingIdentifier(uid=new_uid(), identifier=f'vol {g}'),
+                referenced_regions=[region], finding_type=codes.SCT.SpinalCord, measurements=meas))
+        else:
+            groups.append(sr.MeasurementsAndQualitativeEvaluations(
+                tracking_identifier=sr.TrackingIdentifier(uid=new_uid(), identifier=f'grp {g}'),
+                measurements=meas, qualitative_evaluations=evals))
+    kinds = {type(g).__name__ for g in groups}
+    if len(kinds) > 1:      # a report holds groups of one template only
+        groups = [g for g in groups if type(g).__name__ == type(groups[0]).__name__]
+    return sr.MeasurementReport(observation_context=ctx, procedure_reported=codes.LN.CTUnspecifiedBodyRegion,
+                                imaging_measurements=groups)
+
+
+def subject_sr(r, nr):
+    import highdicom as hd
+    from pydicom.sr.codedict import codes
+    src = sources.ct_series(r.randint(1, 3), 4, 4)
+    which = r.choice(['EnhancedSR', 'ComprehensiveSR', 'Comprehensive3DSR'])
+    report = _measurement_report(r, nr, src, use_3d=(which == 'Comprehensive3DSR' and r.random() < 0.7))
+    cls = getattr(hd.sr, which)
+    ids = _ids(r)
+    opt = {}
+    if r.random() < 0.5:
+        opt.update(institution_name='inst', institutional_department_name='dept')
+    if r.random() < 0.4:
+        opt.update(is_verified=True, verifying_observer_name='Doe^John', verifying_organization='org')
+    if r.random() < 0.4:
+        opt.update(performed_procedure_codes=[codes.LN.CTUnspecifiedBodyRegion])
+    record = r.random() < 0.5
+
+    def call(evidence, content):
+        return cls(evidence=evidence, content=content, manufacturer='verif', record_evidence=record, **ids, **opt)
+    return {'name': 'sr.' + which, 'variant': (which, tuple(sorted(opt)), record, len(report[0].ContentSequence)),
+            'call': call, 'inputs': {'evidence': src, 'content': report[0]}}
+
+
+def subject_ko(r, nr):
+    import highdicom as hd
+    from pydicom.sr.codedict import codes
+    src = sources.ct_series(r.randint(1, 3), 3, 3)
+    content = hd.ko.KeyObjectSelection(document_title=codes.DCM.Manifest, referenced_objects=src,
+                                       description='selection' if r.random() < 0.5 else None)
+    ids = _ids(r)
+
+    def call(evidence, content):
+        return hd.ko.KeyObjectSelectionDocument(evidence=evidence, content=content, manufacturer='verif', **ids)
+    return {'name': 'ko.KeyObjectSelectionDocument', 'variant': (len(src),), 'call': call,
+            'inputs': {'evidence': src, 'content': content}}
+
+
+# ------------------------------------------------------------------------------------------ bulk annotations
+def subject_ann(r, nr):
+    import highdicom as hd
+    from pydicom.sr.codedict import codes
+    ds, _ = sources.slide_image(8, 8, 4, 4)
+    coord3d = r.random() < 0.5
+    gtype = r.choice(['POINT', 'POLYGON', 'RECTANGLE', 'ELLIPSE', 'POLYLINE'])
+    n = r.randint(1, 4)
+    dim = 3 if coord3d else 2
+    how = r.choice(['c', 'f', 'readonly', 'view'])
+    data = []
+    for _ in range(n):
+        npts = {'POINT': 1, 'RECTANGLE': 4, 'ELLIPSE': 4}.get(gtype, r.randint(3, 5))
+        if gtype == 'RECTANGLE':
+            x0, y0 = nr.integers(1, 4, size=2).astype(float)
+            pts = np.array([[x0, y0], [x0 + 2, y0], [x0 + 2, y0 + 1], [x0, y0 + 1]])
+        else:
+            pts = nr.integers(1, 7, size=(npts, 2)).astype(np.float64) + 0.5
+        if coord3d:
+            pts = np.hstack([pts, np.zeros((pts.shape[0], 1))])
+        data.append(layout(pts.astype(r.choice([np.float64, np.float32])), how))
+    values = layout(nr.integers(0, 50, size=(n, 1)).astype(np.float64) / 2, r.choice(['c', 'f', 'readonly']))
+    meas = [hd.ann.Measurements(name=codes.SCT.Area, unit=codes.UCUM.SquareMicrometer, values=values)] if r.random() < 0.6 else None
+    ids = _ids(r)
+    eq = _equip()
+    uid = new_uid()
+
+    def call(source_images, graphic_data, measurements):
+        group = hd.ann.AnnotationGroup(
+            number=1, uid=uid, label='first', annotated_property_category=codes.SCT.AnatomicalStructure,
+            annotated_property_type=codes.SCT.Cell, graphic_type=hd.ann.GraphicTypeValues[gtype], graphic_data=graphic_data,
+            algorithm_type=hd.ann.AnnotationGroupGenerationTypeValues.MANUAL, measurements=measurements,
+            description='annotation')
+        return hd.ann.MicroscopyBulkSimpleAnnotations(
+            source_images=source_images,
+            annotation_coordinate_type=hd.ann.AnnotationCoordinateTypeValues.SCOORD3D if coord3d
+            else hd.ann.AnnotationCoordinateTypeValues.SCOORD,
+            annotation_groups=[group], **ids, **eq)
+    return {'name': 'ann.MicroscopyBulkSimpleAnnotations', 'variant': (coord3d, gtype, how, meas is not None),
+            'call': call, 'inputs': {'source_images': [ds], 'graphic_data': data, 'measurements': meas}}
+
+
+# ------------------------------------------------------------------------------------------ presentation states
+def subject_pr(r, nr):
+    import highdicom as hd
+    from highdicom import pr
+    from pydicom.sr.codedict import codes
+    which = r.choice(['gsps', 'gsps', 'pseudo', 'color'])
+    if which == 'color':
+        ds, _ = sources.slide_image(4, 4, 4, 4, samples=3)
+        import os
+        icc = open(os.path.join(os.path.dirname(hd.__file__), '_icc_profiles', 'sRGB_v4_ICC_preference.icc'), 'rb').read()
+        ds.OpticalPathSequence[0].ICCProfile = icc
+        src = [ds]
+    else:
+        src = sources.ct_series(r.randint(1, 3), 4, 4)
+        for d in src:
+            d.RescaleIntercept = 0
+            d.RescaleSlope = 1
+            d.RescaleType = 'HU'
+    how = r.choice(['c', 'f', 'readonly', 'view'])
+    circle = layout(np.array([[2.0, 2.0], [3.0, 2.0]]), how)
+    layer = pr.GraphicLayer(layer_name='LAYER1', order=1, description='layer',
+                            display_color=hd.color.CIELabColor(0.0, 127.0, 127.0))
+    gobj = pr.GraphicObject(graphic_type=pr.GraphicTypeValues.CIRCLE, graphic_data=circle, units=pr.AnnotationUnitsValues.PIXEL)
+    tobj = pr.TextObject(text_value='text', units=pr.AnnotationUnitsValues.PIXEL, bounding_box=(1.0, 1.0, 3.0, 3.0))
+    ann = pr.GraphicAnnotation(referenced_images=src, graphic_layer=layer, graphic_objects=[gobj], text_objects=[tobj])
+    ids = _ids(r)
+    eq = _equip()
+    inputs = {'referenced_images': src, 'graphic_layers': [layer], 'graphic_annotations': [ann]}
+    extra = {}
+    lut_arr = layout(np.arange(10, 266, dtype=np.uint16), r.choice(['c', 'readonly', 'view']))
+    if which in ('gsps', 'pseudo'):
+        if r.random() < 0.5:
+            extra['modality_lut_transformation'] = hd.ModalityLUTTransformation(
+                modality_lut=hd.ModalityLUT(lut_type=hd.RescaleTypeValues.HU, first_mapped_value=0, lut_data=lut_arr))
+        elif r.random() < 0.5:
+            extra['modality_lut_transformation'] = hd.ModalityLUTTransformation(
+                rescale_intercept=-1024.0, rescale_slope=2.0, rescale_type='HU')
+        if r.random() < 0.6:
+            if r.random() < 0.5:
+                extra['voi_lut_transformations'] = [pr.SoftcopyVOILUTTransformation(window_center=40.0, window_width=400.0)]
+            else:
+                extra['voi_lut_transformations'] = [pr.SoftcopyVOILUTTransformation(
+                    voi_luts=[hd.VOILUT(first_mapped_value=0, lut_data=lut_arr, lut_explanation='voi')])]
+    if which == 'gsps' and r.random() < 0.5:
+        extra['presentation_lut_transformation'] = hd.PresentationLUTTransformation(
+            presentation_lut=hd.PresentationLUT(first_mapped_value=0, lut_data=lut_arr)) if r.random() < 0.5 else \
+            hd.PresentationLUTTransformation(presentation_lut_shape=hd.PresentationLUTShapeValues.INVERSE)
+    if which == 'pseudo':
+        bits = 16                             # presentation states demand 16-bit palette LUTs
+        dt = np.uint16
+        mk = lambda: layout(nr.integers(0, 2 ** bits - 1, size=256).astype(dt), r.choice(['c', 'readonly', 'view']))  # noqa: E731
+        extra['palette_color_lut_transformation'] = hd.PaletteColorLUTTransformation(
+            red_lut=hd.PaletteColorLUT(0, mk(), color='red'), green_lut=hd.PaletteColorLUT(0, mk(), color='green'),
+            blue_lut=hd.PaletteColorLUT(0, mk(), color='blue'), palette_color_lut_uid=new_uid())
+    inputs.update(extra)
+    cls = {'gsps': pr.GrayscaleSoftcopyPresentationState, 'pseudo': pr.PseudoColorSoftcopyPresentationState,
+           'color': pr.ColorSoftcopyPresentationState}[which]
+    creator = r.random() < 0.5
+
+    def call(**kw):
+        return cls(content_label='LABEL', concept_name=codes.DCM.PresentationState,
+                   content_creator_name='Doe^John' if creator else None, **kw, **ids, **eq)
+    return {'name': 'pr.' + cls.__name__, 'variant': (which, tuple(sorted(extra)), how), 'call': call, 'inputs': inputs}
+
+
+# ------------------------------------------------------------------------------------------ legacy conversion
+def subject_legacy(r, nr):
+    import highdicom as hd
+    which = r.choice(['CT', 'MR', 'PET'])
+    n = r.randint(1, 4)
+    src = sources.ct_series(n, r.randint(2, 5), r.randint(2, 5))
+    sop = {'CT': '1.2.840.10008.5.1.4.1.1.2', 'MR': '1.2.840.10008.5.1.4.1.1.4', 'PET': '1.2.840.10008.5.1.4.1.1.128'}[which]
+    mod = {'CT': 'CT', 'MR': 'MR', 'PET': 'PT'}[which]
+    for d in src:
+        d.SOPClassUID = sop
+        d.file_meta.MediaStorageSOPClassUID = sop
+        d.Modality = mod
+        d.RescaleIntercept = 0
+        d.RescaleSlope = 1
+        d.SliceThickness = 1.0
+        d.ImageType = ['ORIGINAL', 'PRIMARY', 'AXIAL']
+        d.AcquisitionNumber = 1
+        d.KVP = 120.0 if which == 'CT' else None
+    cls = getattr(hd.legacy, f'LegacyConvertedEnhanced{which}Image')
+    ids = _ids(r)
+
+    def call(legacy_datasets):
+        return cls(legacy_datasets=legacy_datasets, **ids)
+    return {'name': 'legacy.' + cls.__name__, 'variant': (which, n), 'call': call, 'inputs': {'legacy_datasets': src}}
+
+
+# ------------------------------------------------------------------------------------------ content classes
+def subject_content(r, nr):
+    """A bundle of content-level objects (templates, content items of every value type, shared content classes) built
+    from caller-owned arrays / datasets; returned as a list so that converters can be exercised on each of them."""
+    import datetime
+    import highdicom as hd
+    from highdicom import sr
+    from pydicom.sr.codedict import codes
+    img = sources.ct_series(2, 3, 3)
+    seg_src = sources.ct_series(2, 3, 3)
+    mask = np.zeros((2, 3, 3), np.uint8)
+    mask[0, 1, 1] = 1
+    mask[1, 1, 1] = 1
+    seg = hd.seg.Segmentation(seg_src, mask, 'BINARY', [sources.seg_description(1, tracking=True)], new_uid(), 1, new_uid(), 1,
+                              'm', 'mm', '1', '1')
+    how = r.choice(['c', 'f', 'readonly', 'view'])
+    p2 = layout(nr.integers(1, 5, size=(1, 2)).astype(np.float64), how)
+    p3 = layout(nr.integers(1, 5, size=(1, 3)).astype(np.float64), how)
+    ell = layout(np.array([[1.0, 2.0, 2.0], [3.0, 2.0, 2.0], [2.0, 1.0, 2.0], [2.0, 3.0, 2.0], [2.0, 2.0, 1.0], [2.0, 2.0, 3.0]]), how)
+    lut = layout(np.arange(256, dtype=np.uint16), r.choice(['c', 'readonly', 'view']))
+    name = codes.DCM.LevelOfSignificance
+    rel = sr.RelationshipTypeValues.CONTAINS
+    uids = [new_uid() for _ in range(12)]
+
+    def call(images, segmentation, point2d, point3d, ellipsoid, lut_data):
+        i0 = images[0]
+        return [
+            hd.AlgorithmIdentificationSequence(name='alg', family=codes.DCM.ArtificialIntelligence, version='1.0', source='src',
+                                               parameters={'a': '1'}),
+            hd.IssuerOfIdentifier('issuer'),
+            hd.LUT(first_mapped_value=0, lut_data=lut_data, lut_explanation='x'),
+            hd.SpecimenPreparationStep('spec1', processing_procedure=hd.SpecimenCollection(procedure=codes.SCT.Biopsy)),
+            hd.SpecimenDescription(specimen_id='spec1', specimen_uid=uids[0], specimen_preparation_steps=[
+                hd.SpecimenPreparationStep('spec1', processing_procedure=hd.SpecimenStaining(substances=[codes.SCT.HematoxylinStain]))]),
+            sr.DateContentItem(name=name, value=datetime.date(2020, 1, 2), relationship_type=rel),
+            sr.TimeContentItem(name=name, value=datetime.time(1, 2, 3), relationship_type=rel),
+            sr.DateTimeContentItem(name=name, value=datetime.datetime(2020, 1, 2, 3, 4, 5), relationship_type=rel),
+            sr.CompositeContentItem(name=name, referenced_sop_class_uid='1.2.840.10008.5.1.4.1.1.88.11',
+                                    referenced_sop_instance_uid=uids[1], relationship_type=rel),
+            sr.ScoordContentItem(name=name, graphic_type=sr.GraphicTypeValues.POINT, graphic_data=point2d, relationship_type=rel),
+            sr.Scoord3DContentItem(name=name, graphic_type=sr.GraphicTypeValues3D.POINT, graphic_data=point3d,
+                                   frame_of_reference_uid=uids[2], relationship_type=rel),
+            sr.TcoordContentItem(name=name, temporal_range_type=sr.TemporalRangeTypeValues.POINT, referenced_time_offsets=[1.0],
+                                 relationship_type=rel),
+            sr.WaveformContentItem(name=name, referenced_sop_class_uid='1.2.840.10008.5.1.4.1.1.9.1.1',
+                                   referenced_sop_instance_uid=uids[3], referenced_waveform_channels=[(1, 1)],
+                                   relationship_type=rel),
+            sr.CoordinatesForMeasurement(graphic_type=sr.GraphicTypeValues.POINT, graphic_data=point2d,
+                                         source_image=sr.SourceImageForRegion.from_source_image(i0)),
+            sr.CoordinatesForMeasurement3D(graphic_type=sr.GraphicTypeValues3D.POINT, graphic_data=point3d,
+                                           frame_of_reference_uid=uids[4]),
+            sr.LongitudinalTemporalOffsetFromEvent(value=5, unit=codes.UCUM.Day, event_type=codes.DCM.Baseline),
+            sr.RealWorldValueMap(referenced_sop_instance_uid=uids[5]),
+            sr.ReferencedSegment.from_segmentation(segmentation, segment_number=1),
+            sr.ReferencedSegmentationFrame.from_segmentation(segmentation, frame_number=1),
+            sr.SourceImageForMeasurement.from_source_image(i0),
+            sr.SourceImageForMeasurementGroup.from_source_image(i0),
+            sr.SourceImageForSegmentation.from_source_image(i0),
+            sr.SourceSeriesForSegmentation.from_source_image(i0),
+            sr.VolumeSurface(graphic_type=sr.GraphicTypeValues3D.ELLIPSOID, graphic_data=ellipsoid, frame_of_reference_uid=uids[6],
+                             source_images=[sr.SourceImageForSegmentation.from_source_image(i0)]),
+            sr.DeviceObserverIdentifyingAttributes(uid=uids[7], name='dev', manufacturer_name='m'),
+            sr.PersonObserverIdentifyingAttributes(name='Doe^J', login_name='jd'),
+            sr.SubjectContextDevice(name='dev', uid=uids[8]),
+            sr.SubjectContextFetus(subject_id='f1'),
+            sr.SubjectContextSpecimen(uid=uids[9], identifier='s1'),
+            hd.ko.KeyObjectSelection(document_title=codes.DCM.Manifest, referenced_objects=images),
+            sr.Measurement(name=codes.SCT.AreaOfDefinedRegion, value=1.5, unit=codes.UCUM.SquareMillimeter),
+            sr.QualitativeEvaluation(name=name, value=codes.SCT.NotSignificant),
+            _measurement_report(r, nr, images, use_3d=False),
+        ]
+    return {'name': 'content bundle', 'variant': (how,), 'call': call,
+            'inputs': {'images': img, 'segmentation': seg, 'point2d': p2, 'point3d': p3, 'ellipsoid': ell, 'lut_data': lut}}
+
+
+SUBJECTS = [subject_content, subject_seg, subject_seg, subject_seg, subject_seg_volume, subject_pm, subject_pm, subject_sc, subject_sr,
+            subject_sr, subject_ko, subject_ann, subject_pr, subject_pr, subject_legacy]
